@@ -165,7 +165,7 @@ class Chipset(pn53x.Chipset):
                 wakeup_set |= 1 << i
         cmd_data = bytearray([wakeup_set, int(generate_irq)])
         data = self.command(0x16, cmd_data, timeout=0.1)
-        if data[0] != 0:
+        if not data or data[0] != 0:
             self.chipset_error(data)
 
     def tg_init_as_target(self, mode, mifare_params, felica_params, nfcid3t,
